@@ -199,7 +199,7 @@ struct SaveWorld : World {
                     else { stat_add(P_PERM_SAMPLED); Rng r((uint64_t)op.a[2] + ls.size()); for (int t = 0; t < 200; t++) { for (size_t i = ord.size(); i > 1; i--) std::swap(ord[i - 1], ord[r.below(i)]); if (!one(ord)) return; } }
                 };
                 note("permuting lines"); sweep(lines, "all lines present");
-                static const char *providers[] = {"/preset", "/Poscenabled", "/Pvoices", "/Pfx", "/Pbank", "/mode", "/units0/bank", "/units0/kind", "/units0/gain", "/units0/width", "/units0/enabled", "/units0/unison", "/units0/type", "/units0/lfo_shape", "/units1/bank", "/units1/kind", "/units1/type", "/units1/lfo_shape", "/units1/enabled", "/units1/unison"}; bool dep = false;
+                static const char *providers[] = {"/preset", "/Poscenabled", "/Pvoices", "/Pfx", "/Pbank", "/osc2_on", "/mode", "/units0/s", "/units1/s", "/units0/bank", "/units0/kind", "/units0/gain", "/units0/width", "/units0/enabled", "/units0/unison", "/units0/type", "/units0/lfo_shape", "/units1/bank", "/units1/kind", "/units1/type", "/units1/lfo_shape", "/units1/enabled", "/units1/unison"}; bool dep = false;
                 for (size_t i = 0; i < lines.size() && res.cls.empty(); i++) { std::string a = lines[i].substr(0, lines[i].find(' ')); bool prov = false; for (auto pv : providers) if (a == pv) prov = true; if (!prov) continue; dep = true;
                     std::vector<std::string> ls = lines; ls.erase(ls.begin() + i); if (ls.size() >= 2) { stat_add(F_DEP_LINE_DELETED); sweep(ls, ("line " + a + " deleted").c_str()); } }
                 if (dep) stat_add(P_DEP_ORDER_MATTERED);
